@@ -724,8 +724,9 @@ impl TransactionBuilder {
                         let not_exceed_max = new < max;
                         if move_closer && not_exceed_max {
                             std::mem::swap(i, j);
-                            available_indices.insert(*i);
-                            available_indices.remove(j);
+                            // i is now the newly selected input, j the one released back
+                            available_indices.remove(i);
+                            available_indices.insert(*j);
                         }
                     }
                 }
